@@ -169,7 +169,103 @@ def sh(cmd, cwd=None, env=None, timeout=1800):
         return 124, 'timeout'
 
 
+def recheck(a):
+    """Second pass: every survivor of <prop> is tried against the checks of the OTHER properties anchored in the same file (a change of
+    the output pixel scale is C02's business, not C05's).  Adds 'others' to the records and rewrites the files."""
+    import glob
+    props = {json.loads(l)['id']: json.loads(l) for l in open(os.path.join(core.VERIF_DIR, 'properties.jsonl'))}
+    todo = []
+    for path in sorted(glob.glob(os.path.join(a.out, 'C??.jsonl'))):
+        prop = os.path.basename(path)[:3]
+        recs = [json.loads(l) for l in open(path)]
+        scope = SCOPE.get(prop) or {f: ['*'] for f in props[prop]['anchors']['files']}
+        rnd = random.Random(a.seed * 1000 + int(prop[1:]))
+        cands = []
+        for fn, names in scope.items():
+            tree = ast.parse(open(os.path.join('/repo', fn)).read())
+            for k, (node, kind) in enumerate(sites(tree, names)):
+                cands.append((fn, k, kind, getattr(node, 'lineno', 0)))
+        rnd.shuffle(cands)
+        picked = cands[:len(recs)]
+        jobs = list(enumerate(picked))
+        nj = a.orig_jobs
+        order = [j for w in range(nj) for j in jobs if j[0] % nj == w]
+        assert len(order) == len(recs)
+        for (idx, (fn, k, kind, lineno)), r in zip(order, recs):
+            assert r['file'] == fn and r['line'] == lineno and r['kind'] == kind, (prop, r, fn, lineno, kind)
+            r['k'], r['idx'] = k, idx
+            if r.get('check') == 'missed' and 'others' not in r:
+                todo.append((path, prop, r, scope[fn]))
+        json.dump(recs, open(path + '.tmp', 'w'))
+    print(f'{len(todo)} survivors to re-check')
+    tmp = tempfile.mkdtemp(prefix='vpmut-')
+    workers = []
+    for w in range(a.jobs):
+        wt = os.path.join(tmp, f'w{w}')
+        rc, o = sh(['git', '-C', '/repo', 'worktree', 'add', '--detach', '-q', wt, 'HEAD'])
+        assert rc == 0, o
+        workers.append(wt)
+
+    def one(job):
+        w, (path, prop, r, names) = job
+        wt = workers[w]
+        fn = r['file']
+        tree = ast.parse(open(os.path.join('/repo', fn)).read())
+        node, kind = sites(tree, names)[r['k']]
+        apply(node, kind, random.Random(r['idx']))
+        with open(os.path.join(wt, fn), 'w') as f:
+            f.write(ast.unparse(tree) + '\n')
+        others = {}
+        try:
+            for q in sorted(SCOPE):
+                if q == prop or fn not in SCOPE[q]:
+                    continue
+                rc2, o2 = sh([os.path.join(core.VERIF_DIR, 'check'), q, '--no-evidence'], cwd=core.VERIF_DIR, env=dict(os.environ, VERIF_REPO=wt), timeout=1500)
+                others[q] = 'detected' if rc2 == 1 and f'VIOLATION property={q}' in o2 else ('missed' if rc2 == 0 else 'inconclusive')
+                if others[q] == 'detected':
+                    break
+        finally:
+            sh(['git', '-C', wt, 'checkout', '-q', '--', '.'])
+        r['others'] = others
+        return r
+
+    chunks = [[(w, t) for i, t in enumerate(todo) if i % a.jobs == w] for w in range(a.jobs)]
+    try:
+        with ThreadPoolExecutor(max_workers=a.jobs) as ex:
+            list(ex.map(lambda ch: [one(j) for j in ch], chunks))
+    finally:
+        for wt in workers:
+            sh(['git', '-C', '/repo', 'worktree', 'remove', '--force', wt])
+        shutil.rmtree(tmp, ignore_errors=True)
+    # merge back
+    by_path = {}
+    for path, prop, r, names in todo:
+        by_path.setdefault(path, {})[r['idx']] = r
+    for path in sorted(glob.glob(os.path.join(a.out, 'C??.jsonl'))):
+        recs = json.load(open(path + '.tmp'))
+        for r in recs:
+            if r['idx'] in by_path.get(path, {}):
+                r.update(by_path[path][r['idx']])
+        with open(path, 'w') as f:
+            for r in recs:
+                f.write(json.dumps(r) + '\n')
+        os.remove(path + '.tmp')
+        left = [r for r in recs if r.get('check') == 'missed' and 'detected' not in (r.get('others') or {}).values()]
+        print(f'{os.path.basename(path)[:3]}: {len(left)} survivors after the second pass')
+        for r in left:
+            print(f"  {r['file']}:{r['line']} {r['kind']} {r['what']} :: {r['src']}")
+    return 0
+
+
 def main():
+    if '--recheck' in sys.argv:
+        ap = argparse.ArgumentParser()
+        ap.add_argument('--recheck', action='store_true')
+        ap.add_argument('--seed', type=int, default=1)
+        ap.add_argument('--jobs', type=int, default=6)
+        ap.add_argument('--orig-jobs', dest='orig_jobs', type=int, default=4)
+        ap.add_argument('--out', default='/tmp/mutate')
+        return recheck(ap.parse_args())
     ap = argparse.ArgumentParser()
     ap.add_argument('prop')
     ap.add_argument('--n', type=int, default=60)
